@@ -229,8 +229,12 @@ def match_known(pid, fnname, viol):
             continue
         if m.get("where"):
             names = {re.sub(r"\W", "_", k): v for k, v in viol["model"].items()}
+            # vals('prefix'): the model values of every nondet whose name starts with the prefix (any number of them)
+            model = dict(viol["model"])
+            names.update({"__builtins__": {}, "any": any, "all": all, "len": len,
+                          "vals": lambda pre: [v for k, v in model.items() if k.startswith(pre)]})
             try:
-                if not eval(m["where"], {"__builtins__": {}}, names):
+                if not eval(m["where"], names):
                     continue
             except Exception:
                 continue
